@@ -60,3 +60,11 @@ Theorem C02_find_iter : forall (V : Type) (src : list V) (ops : list (op V)) (r 
   = find_in (tpe src ops) (seq 0 (tlen src ops)).
 Proof. intros V src ops r ordered sched Hw Hd. apply iter_find; assumption. Qed.
 Print Assumptions C02_find_iter.
+
+(** a concurrent iterator that was advanced by [k] elements before [into_par()]: the computation
+    runs over the rest, and position [i] of the rest is position [k + i] of the original source
+    (the index the model's [exec] reports, [shift_res]) *)
+Theorem C02_pre_advanced_index : forall (A : Type) (l : list A) (k i : nat),
+  nth_error (skipn k l) i = nth_error l (k + i).
+Proof. intros A l k i. apply pre_advanced_position. Qed.
+Print Assumptions C02_pre_advanced_index.
